@@ -150,7 +150,7 @@ func (g *c12Gen) boolean(p string) string {
 func (g *c12Gen) item(p string, i int, top bool) string {
 	alias := fmt.Sprintf("c%d", i)
 	kinds := []string{"col", "num", "str", "bool", "null", "tuple", "array", "subquery", "exists", "async", "backref", "nestedcol", "first", "last", "elementat", "once", "objcol", "fuse", "asyncstr", "subquery_async",
-		"fuse_sub", "await", "star_sub", "selector", "hash", "encode"}
+		"fuse_sub", "await", "star_sub", "selector", "hash", "encode", "fuse_alias", "report", "constant", "scoped", "marker_col"}
 	if !top || p != "" {
 		kinds = []string{"col", "num", "str", "bool", "null", "tuple", "array", "async", "objcol"}
 	}
@@ -203,6 +203,22 @@ func (g *c12Gen) item(p string, i int, top bool) string {
 		return fmt.Sprintf("ELEMENTAT(n, 0) AS %s", alias)
 	case "fuse":
 		return "FUSE(o)"
+	case "marker_col":
+		// the back-reference itself read as a value: the enclosing document (CTE results are written into it)
+		return fmt.Sprintf("%s AS %s", g.pick("marker_form", "(SELECT `<-` AS up FROM dual)", "(SELECT `<-` AS up, v FROM n)", "(SELECT ARRAY(`<-`, 1) AS up FROM dual)",
+			"(SELECT (`<-`, 2) AS up FROM dual)", "(SELECT FUSE(`<-`) FROM dual)", "(SELECT `<-"+g.root+"meta` AS m, `<-` AS up FROM dual)"), alias)
+	case "fuse_alias":
+		// an aliased FUSE blends the keys in under a prefix
+		return fmt.Sprintf("FUSE(%s) AS %s", g.pick("fuse_alias_arg", "o", "(SELECT p, q FROM o)", "(SELECT * FROM dual)"), alias)
+	case "report":
+		// REPORT hands an error to the caller's handler and adds no column (an omit marker internally)
+		return g.pick("report_form", "REPORT('e')", "REPORT_WHEN("+p+"a >= 10, 'big')", "REPORT_WHEN(FALSE, 'never')")
+	case "constant":
+		return fmt.Sprintf("CONSTANT(%s) AS %s", g.pick("constant_name", "'unit'", "'conf'", "'levels'"), alias)
+	case "scoped":
+		g.site++
+		g.sites = append(g.sites, g.site)
+		return fmt.Sprintf("SCOPED.fx(%d, %sa) AS %s", g.site, p, alias)
 	case "hash":
 		return fmt.Sprintf("HASH(%s, %s) AS %s", g.pick("hash_arg", p+"s", p+"a", p+"id", "'lit'", p+"o", p+"n"), sqlLit(g.pick("hash_fn", "sha1", "sha256", "sha512", "md5")), alias)
 	case "encode":
@@ -274,9 +290,21 @@ func c12Doc(t *rapid.T) map[string]any {
 	nu := rapid.IntRange(0, 3).Draw(t, "nu")
 	us := []any{}
 	for i := 0; i < nu; i++ {
-		us = append(us, map[string]any{"id": float64(rapid.IntRange(1, 4).Draw(t, "uid")), "b": rapid.SampledFrom([]string{"k", "m"}).Draw(t, "b")})
+		var k any
+		if rapid.Bool().Draw(t, "k_null") {
+			k = float64(rapid.IntRange(0, 2).Draw(t, "uk"))
+		}
+		us = append(us, map[string]any{"id": float64(rapid.IntRange(1, 4).Draw(t, "uid")), "b": rapid.SampledFrom([]string{"k", "m"}).Draw(t, "b"), "k": k})
 	}
-	return map[string]any{"t": rows, "u": us, "meta": map[string]any{"ip": "10.0.0.1"}}
+	// grid: rows of t, one dimension deeper (FROM over an array of arrays)
+	grid := []any{}
+	for i := 0; i+1 < len(rows); i += 2 {
+		grid = append(grid, []any{rows[i], rows[i+1]})
+	}
+	if len(rows)%2 == 1 {
+		grid = append(grid, []any{rows[len(rows)-1]})
+	}
+	return map[string]any{"t": rows, "u": us, "meta": map[string]any{"ip": "10.0.0.1"}, "grid": grid}
 }
 
 func genC12(t *rapid.T) *Bundle {
@@ -288,7 +316,7 @@ func genC12(t *rapid.T) *Bundle {
 	}
 	g := &c12Gen{t: t, root: root}
 	T, U := root+"t", root+"u"
-	shape := g.pick("shape", "plain", "plain", "where", "order_total", "order_ties", "limit", "distinct", "group", "whole_agg", "join", "pjoin", "derived", "cte", "cte_direct", "dual", "union", "slice", "alias", "star", "nested_from", "group_star", "in_subquery", "having", "cte_col", "cte_twice", "offset_window", "join_into", "join_into", "join_unaliased", "distinct_async")
+	shape := g.pick("shape", "plain", "plain", "where", "order_total", "order_ties", "limit", "distinct", "group", "whole_agg", "join", "pjoin", "derived", "cte", "cte_direct", "dual", "union", "slice", "alias", "star", "nested_from", "group_star", "in_subquery", "having", "cte_col", "cte_twice", "offset_window", "join_into", "join_into", "join_unaliased", "distinct_async", "grid", "grid_cte", "grid_distinct")
 	seq := true
 	var q string
 	switch shape {
@@ -328,7 +356,9 @@ func genC12(t *rapid.T) *Bundle {
 		if rapid.Bool().Draw(t, "join_cols") {
 			sel = g.items("x.", true)
 		}
-		q = fmt.Sprintf("SELECT %s FROM %s x %s %s y ON x.id %s y.id", sel, T, jt, U, op)
+		// the join columns may hold NULLs (z on the left, k on the right)
+		cols := strings.Split(g.pick("join_cols_on", "id:id", "id:id", "z:k", "id:k", "z:id"), ":")
+		q = fmt.Sprintf("SELECT %s FROM %s x %s %s y ON x.%s %s y.%s", sel, T, jt, U, cols[0], op, cols[1])
 		seq = false
 	case "distinct_async":
 		g.site++
@@ -355,6 +385,12 @@ func genC12(t *rapid.T) *Bundle {
 		q = fmt.Sprintf("WITH c AS (SELECT %s FROM %s) SELECT %s FROM dual", g.items("", true), T, g.pick("cte_col_sel", "c", "c AS cc, "+root+"meta", "*", "c, *"))
 	case "cte_twice":
 		q = fmt.Sprintf("WITH c AS (SELECT id, a FROM %s) SELECT id, (SELECT a FROM `<-c` WHERE a >= 10) AS again FROM c", T)
+	case "grid":
+		q = fmt.Sprintf("SELECT %s FROM %sgrid", g.items("", true), root)
+	case "grid_cte":
+		q = fmt.Sprintf("WITH c AS (SELECT %s FROM %sgrid) SELECT %s FROM c", g.items("", true), root, g.pick("grid_cte_sel", "*", "DISTINCT *"))
+	case "grid_distinct":
+		q = fmt.Sprintf("SELECT DISTINCT %s FROM %sgrid", g.pick("gdcols", "a", "s", "a, s", "f, (SELECT * FROM dual) AS me"), root)
 	case "offset_window":
 		q = fmt.Sprintf("SELECT id FROM %s LIMIT %d OFFSET %d", T, rapid.IntRange(0, 6).Draw(t, "lim"), rapid.IntRange(0, 6).Draw(t, "off"))
 	case "dual":
@@ -374,7 +410,8 @@ func genC12(t *rapid.T) *Bundle {
 	}
 	exp := c12Expect{Query: q, SeqFixed: seq, Sites: g.sites, Shape: shape}
 	sim := drawSim(t, "")
-	c := oneClientCase("C12", sim, doc, casefmt.Op{Doc: 0, Vars: 0, Query: q, Wrapped: wrapped})
+	c := oneClientCase("C12", sim, doc, casefmt.Op{Doc: 0, Vars: 0, Query: q, Wrapped: wrapped,
+		Constants: map[string]any{"unit": "ms", "conf": map[string]any{"on": true, "depth": 2.0}, "levels": []any{1.0, "two", nil}}})
 	c.Vars = []map[string]any{{}}
 	c.NativeInts = rapid.Bool().Draw(t, "native_ints")
 	c.Stubs.Lat = drawLatencies(t, g.sites, 6)
@@ -585,7 +622,7 @@ func corpusC12() []*Bundle {
 func init() {
 	register(&Property{
 		ID: "C12", Plain: true, Level: "exploration",
-		Rule:   "cases = rapid-generated (document of 0-5 rows with nested arrays/objects/NULLs) x query drawn from a grammar over every expression form the engine evaluates (literals, tuples, arithmetic, comparison, AND/OR/NOT, IS, BETWEEN, IN/NOT IN, LIKE, SUBSTR, CASE, built-in functions incl. ARRAY/IF/FUSE/FIRST/LAST/ELEMENTAT/CHANGETYPE, row-scoped subqueries, EXISTS, `<-` back-references, ASYNC/ONCE stub calls directly in the select list and inside subqueries, aggregates) in 23 statement shapes (plain, WHERE, ORDER BY total/ties, LIMIT/OFFSET, DISTINCT, GROUP BY/HAVING, whole-table aggregates, joins incl. PARALLEL, derived tables, CTEs un-Wrapped and Wrapped, direct CTE selection, dual, UNION, slices, aliases, `*`) plus a fixed corpus; each query is executed under 4 different (map order, goroutine schedule, stub latency) configurations; every successful result is type-walked in the child and the 4 outcomes/results are compared (sequence when determined, else multiset); non-trivial = >=2 tasks runnable at some yield or a non-identity map order applied; distinct = distinct case-file hash",
+		Rule:   "cases = rapid-generated (document of 0-5 rows with nested arrays/objects/NULLs) x query drawn from a grammar over every expression form the engine evaluates (literals, tuples, arithmetic, comparison, AND/OR/NOT, IS, BETWEEN, IN/NOT IN, LIKE, SUBSTR, CASE, built-in functions incl. ARRAY/IF/FUSE/FIRST/LAST/ELEMENTAT/CHANGETYPE, row-scoped subqueries, EXISTS, `<-` back-references, ASYNC/ONCE stub calls directly in the select list and inside subqueries, aggregates) in 23 statement shapes (plain, WHERE, ORDER BY total/ties, LIMIT/OFFSET, DISTINCT, GROUP BY/HAVING, whole-table aggregates, joins incl. PARALLEL, derived tables, CTEs un-Wrapped and Wrapped, direct CTE selection, dual, UNION, slices, aliases, `*`) plus a fixed corpus; each query is executed under 4 different (map order, goroutine schedule, stub latency) configurations; every successful result is type-walked in the child and the 4 outcomes/results are compared (sequence when determined, else multiset); non-trivial = >=2 tasks runnable at some yield or a non-identity map order applied; distinct = distinct case-file hash; select items also include aliased FUSE (prefixed keys), REPORT/REPORT_WHEN (omit marker), CONSTANT over a caller-supplied constants map holding objects/arrays/NULL and SCOPED-qualified calls",
 		Corpus: corpusC12, Gen: genC12, Eval: evalC12, QuickChecks: 500,
 		Assumptions: []string{
 			"'every expression form in every clause position' is an input-space quantifier: sampled by the grammar, not covered; the simulator decides the repeat-under-different-nondeterminism clause and the unresolved-async-slot clause",
